@@ -11,19 +11,18 @@ maps an accepted, canonicalised configuration `LatCfg` to the configuration `DCf
 (`toDCfg`) and shows which fields of `Tfl.C08.CfgShape` / `Tfl.C08.CfgWF` FOLLOW from acceptance and
 which do not:
 
-* follow (`verifyLattice_cfgShape`): `edge`, `trap` (trust dims in range, `main ≠ cond`), the range
-  parts of `mdom`, `jmono`, and `juni` (dims of a joint unimodality distinct and in range);
+* follow (`verifyLattice_cfgShape`): `edge`, `trap` (trust dims in range, `main ≠ cond`), `mdom`, `jmono`
+  (dims in range and — since /repo 18dd711, formerly finding F-C08-c — two DIFFERENT dimensions:
+  `verifyDominances_distinct`; `selfPair_rejected` is the model-side witness that `(d, d)` is rejected),
+  and `juni` (dims of a joint unimodality distinct and in range);
 * do NOT follow and are explicit hypotheses:
   - `c.rd = []` — range dominance is accepted but outside the convergence theorem
     (`rangeDom_corner_not_projection`);
-  - `p.1 ≠ p.2` for monotonic dominances and joint monotonicities — `verify_hyperparameters` accepts
-    `(d, d)` today (finding F-C08-c; `selfPair_accepted` below is the model-side witness), the repair
-    `repo_patches/F-C08-c.diff` rejects it;
   - `NoRepeats` (needed for `CfgWF` only) — a constraint tuple listed twice is accepted
     (`dupPair_accepted`); then the dict keys repeat and the loop is not Boyle–Dykstra's
     (`Tfl.C08.dup_slots_differ`). The convergence theorem does NOT need it
     (`Props/C08Shared.lean`: `projectByDykstraT_cfg_converges_shape`), so `accepted_converges` has only
-    the first two side conditions.
+    the first side condition.
 -/
 namespace Tfl.C08
 open Tfl Tfl.Verify Tfl.Lat
@@ -31,9 +30,24 @@ open Tfl Tfl.Verify Tfl.Lat
 /-- a canonical unimodality (`-1 / 0 / 1`, possibly as a float or bool-like number) as the model's integer -/
 def atomUni (a : Atom) : Int := if a.eqNum 1 then 1 else if a.eqNum (-1) then -1 else 0
 
-/-- one accepted joint unimodality: `_project_onto_hyperplane` tests `direction == "valley"` on the
-string AS GIVEN, so only the exactly lower-case spelling is a valley (F-C08-d) -/
-def toJU (x : List Int × Atom) : JointUni := ⟨x.1.map Int.toNat, x.2 == Atom.str .valley true⟩
+/-- is the direction string a valley? `_project_onto_hyperplane` tests `direction.lower() == "valley"`
+(since /repo cdf6c9e; it compared the string as given before: fixed finding F-C08-d), so ANY
+capitalisation of "valley" is a valley; everything else `verify_hyperparameters` accepts (any
+capitalisation of "peak") is a peak -/
+def isValley : Atom → Bool
+  | .str .valley _ => true
+  | _ => false
+
+/-- one accepted joint unimodality -/
+def toJU (x : List Int × Atom) : JointUni := ⟨x.1.map Int.toNat, isValley x.2⟩
+
+/-- the spelling does not matter (cdf6c9e): `'Valley'` and `'valley'` configure the same constraint, with
+the same `last_change` dict keys (the key holds the lower-cased direction) -/
+theorem toJU_spelling (dims : List Int) (e e' : Bool) :
+    toJU (dims, .str .valley e) = toJU (dims, .str .valley e') ∧
+      toJU (dims, .str .peak e) = toJU (dims, .str .peak e') ∧
+      (toJU (dims, .str .valley e)).valley = true ∧ (toJU (dims, .str .peak e)).valley = false :=
+  ⟨rfl, rfl, rfl, rfl⟩
 
 /-- the `DCfg` (model of `project_by_dykstra`) that an accepted configuration configures -/
 def toDCfg (c : LatCfg) : DCfg :=
@@ -112,6 +126,8 @@ structure AcceptedFacts (c : LatCfg) : Prop where
   md : ∀ p ∈ c.md, PairOK c.sizes.length c.mono true p
   rd : ∀ p ∈ c.rd, PairOK c.sizes.length c.mono true p
   jm : ∀ p ∈ c.jm, PairOK c.sizes.length c.mono false p
+  /-- fix 18dd711: dominance and joint-monotonicity pairs name two different dimensions -/
+  distinct : ∀ p ∈ c.md ++ c.rd ++ c.jm, p.1 ≠ p.2
   ju : ∀ x ∈ c.ju, x.1.Nodup ∧ ∀ d ∈ x.1, 0 ≤ d ∧ d < c.sizes.length
 
 theorem verifyLattice_facts (r : RawLatFull) (c : LatCfg) (h : verifyLattice r = .ok c) : AcceptedFacts c := by
@@ -155,9 +171,15 @@ theorem verifyLattice_facts (r : RawLatFull) (c : LatCfg) (h : verifyLattice r =
                           have htd : List.take (seqLen r.ew) all ++ List.drop (seqLen r.ew) all = all :=
                             List.take_append_drop _ _
                           refine ⟨?_, ?_, verifyDominances_spec hmd, verifyDominances_spec hrd,
-                            verifyDominances_spec hjm, verifyJU_spec hju⟩
+                            verifyDominances_spec hjm, ?_, verifyJU_spec hju⟩
                           · intro t ht; rw [htd] at ht; exact ht1 t ht
                           · intro t ht t' ht'; rw [htd] at ht ht'; exact ht2 t ht t' ht'
+                          · intro p hp
+                            rcases List.mem_append.mp hp with hp | hp
+                            · rcases List.mem_append.mp hp with hp | hp
+                              · exact verifyDominances_distinct hmd p hp
+                              · exact verifyDominances_distinct hrd p hp
+                            · exact verifyDominances_distinct hjm p hp
 
 theorem toNat_nodup {l : List Int} (h : l.Nodup) (hp : ∀ d ∈ l, 0 ≤ d) : (l.map Int.toNat).Nodup := by
   refine List.Nodup.map_on (fun a ha b hb hab => ?_) h
@@ -165,11 +187,18 @@ theorem toNat_nodup {l : List Int} (h : l.Nodup) (hp : ∀ d ∈ l, 0 ≤ d) : (
   have := hp b hb
   omega
 
-/-- **accepted ⇒ `CfgShape`**, with exactly the two side conditions acceptance does not give: no range
-dominance, and no `(d, d)` dominance / joint-monotonicity pair. -/
+/-- **accepted ⇒ `CfgShape`**, with exactly the one side condition acceptance does not give: no range
+dominance (that dominance / joint-monotonicity pairs name two different dimensions follows from
+acceptance since /repo 18dd711). -/
 theorem verifyLattice_cfgShape (r : RawLatFull) (c : LatCfg) (h : verifyLattice r = .ok c)
-    (hrd : c.rd = []) (hself : ∀ p ∈ c.md ++ c.jm, p.1 ≠ p.2) : CfgShape (toDCfg c) := by
+    (hrd : c.rd = []) : CfgShape (toDCfg c) := by
   have ok := verifyLattice_facts r c h
+  have hself : ∀ p ∈ c.md ++ c.jm, p.1 ≠ p.2 := by
+    intro p hp
+    apply ok.distinct p
+    rcases List.mem_append.mp hp with hp | hp
+    · exact List.mem_append_left _ (List.mem_append_left _ hp)
+    · exact List.mem_append_right _ hp
   have hlen : (c.sizes.map Int.toNat).length = c.sizes.length := List.length_map _
   have key : ∀ t ∈ c.ew ++ c.tp, TrustWF (toDCfg c).sizes (toTrust t) := by
     intro t ht
@@ -202,18 +231,19 @@ theorem verifyLattice_cfgShape (r : RawLatFull) (c : LatCfg) (h : verifyLattice 
     simp only [toDCfg, hlen]
     omega
 
-/-- **accepted ⇒ `CfgWF`** (the hypothesis of `projectByDykstraT_cfg_converges`), with the three side
-conditions acceptance does not give: no range dominance, no `(d, d)` pair, no constraint listed twice. -/
+/-- **accepted ⇒ `CfgWF`** (the hypothesis of `projectByDykstraT_cfg_converges`), with the two side
+conditions acceptance does not give: no range dominance, no constraint listed twice. -/
 theorem verifyLattice_cfgWF (r : RawLatFull) (c : LatCfg) (h : verifyLattice r = .ok c)
-    (hrd : c.rd = []) (hself : ∀ p ∈ c.md ++ c.jm, p.1 ≠ p.2) (hnd : NoRepeats (toDCfg c)) :
+    (hrd : c.rd = []) (hnd : NoRepeats (toDCfg c)) :
     CfgWF (toDCfg c) :=
-  cfgWF_of_noRepeats _ (verifyLattice_cfgShape r c h hrd hself) hnd
+  cfgWF_of_noRepeats _ (verifyLattice_cfgShape r c h hrd) hnd
 
-/-- **C08 for accepted configurations**: whatever `verify_hyperparameters` accepts — without range
-dominance and without `(d, d)` pairs; constraint tuples may be listed twice (`Props/C08Shared.lean`) —
-the executable model of `project_by_dykstra` converges to the Euclidean-nearest feasible kernel. -/
+/-- **C08 for accepted configurations**: whatever `verify_hyperparameters` accepts without range
+dominance — constraint tuples may be listed twice (`Props/C08Shared.lean`), joint unimodality
+directions in any accepted spelling — the executable model of `project_by_dykstra` converges to the
+Euclidean-nearest feasible kernel. -/
 theorem accepted_converges (r : RawLatFull) (c : LatCfg) (h : verifyLattice r = .ok c)
-    (hrd : c.rd = []) (hself : ∀ p ∈ c.md ++ c.jm, p.1 ≠ p.2)
+    (hrd : c.rd = [])
     (hact : dykstraActive (toDCfg c) = true) (t : Table) :
     ∃ p : Idx → ℝ, FeasibleR (toDCfg c) p ∧
       (∀ y : Idx → ℝ, FeasibleR (toDCfg c) y →
@@ -224,9 +254,9 @@ theorem accepted_converges (r : RawLatFull) (c : LatCfg) (h : verifyLattice r = 
         (((projectByDykstraT (toDCfg c) n t).get idx : ℚ) : ℝ)) Filter.atTop (nhds (p idx))) ∧
       (∀ ε : ℝ, 0 < ε → ∃ n0 : Nat, ∀ n, n0 ≤ n → ∀ idx, InRange (toDCfg c).sizes idx →
         |(((projectByDykstraT (toDCfg c) n t).get idx : ℚ) : ℝ) - p idx| < ε) :=
-  projectByDykstraT_cfg_converges_shape _ (verifyLattice_cfgShape r c h hrd hself) hact t
+  projectByDykstraT_cfg_converges_shape _ (verifyLattice_cfgShape r c h hrd) hact t
 
-/-! ### the side conditions are needed: the verifier accepts what they exclude -/
+/-! ### what the verifier rejects / accepts at the edges of the side conditions -/
 
 def rawSelfJm : RawLatFull :=
   { sizes := .s false [.a (.int 3), .a (.int 3)], jm := .s false [.s true [.int 0, .int 0]] }
@@ -258,9 +288,17 @@ def cfgGood : LatCfg :=
 
 /-- non-vacuity: an accepted 3×3 configuration (monotone dim 0, Edgeworth trust, joint monotonicity)
 meets all side conditions -/
-example : verifyLattice rawGood = .ok cfgGood ∧ cfgGood.rd = [] ∧ (∀ p ∈ cfgGood.md ++ cfgGood.jm, p.1 ≠ p.2) ∧
+example : verifyLattice rawGood = .ok cfgGood ∧ cfgGood.rd = [] ∧
       NoRepeats (toDCfg cfgGood) ∧ dykstraActive (toDCfg cfgGood) = true := by
-  refine ⟨by decide +kernel, rfl, by decide, ⟨by decide, by decide, by decide, by decide, by decide, by decide⟩,
+  refine ⟨by decide +kernel, rfl, ⟨by decide, by decide, by decide, by decide, by decide, by decide⟩,
     by decide⟩
+
+/-- a capitalised joint-unimodality direction is accepted and configures a VALLEY (cdf6c9e) -/
+def rawValley : RawLatFull :=
+  { sizes := .s false [.a (.int 3), .a (.int 3)], ju := .list [([0, 1], .str .valley false)] }
+
+example : (match verifyLattice rawValley with
+    | .ok c => (toDCfg c).jointUnimod == [⟨[0, 1], true⟩]
+    | .error _ => false) = true := by decide +kernel
 
 end Tfl.C08
